@@ -11,7 +11,7 @@ SHAPES = ['o2m_req_casc', 'o2m_opt', 'o2o_opt', 'm2m']
 
 
 def run(ctx):
-    session_check.run(ctx, 'C23', shapes=SHAPES if ctx.tier == 'quick' else None, strategies=session.STRATEGIES)
+    session_check.run(ctx, 'C23', strategies=session.STRATEGIES)
 
 
 def replay(ctx, rep):
